@@ -108,6 +108,12 @@ func c11Run(c *h.Ctx) {
 		}
 		c11Transport(c, id, c.Rng(id), c.Pick(200_000, 1_500_000))
 	}
+	for k := 0; k < c.Pick(1, 6); k++ {
+		id := fmt.Sprintf("udp%d", k)
+		if c.Case(id) {
+			c11UDP(c, id, c.Rng(id))
+		}
+	}
 	if c.Batch < 2 || c.Thorough() {
 		id := fmt.Sprintf("slow%d", c.Batch)
 		if c.Case(id) {
@@ -740,7 +746,7 @@ func init() {
 		ID:    "C11",
 		Level: "exploration",
 		Rule: "streams of well-formed blocks (1- and 3-byte types, 1/3/5-byte length forms, total block size 2..8800 incl. exactly 8800) of 0.6 MB (quick) / 6 MB (thorough) each are fed to the framing loop through a scripted reader: 1-byte reads, random 1..64, random 1..20000, whole-buffer reads, " +
-			"reads ending inside every T/L header and one byte before each block end, reads at the 32x8800 wrap points; oracle: delivered frames == blocks (count, order, bytes), no error, no callback after EOF; counterpart: std StreamFace over a Unix socket with bursty writes; distinct = (chunk plan, length-form set)",
+			"reads ending inside every T/L header and one byte before each block end, reads at the 32x8800 wrap points; oracle: delivered frames == blocks (count, order, bytes), no error, no callback after EOF; counterpart: std StreamFace over a Unix socket with bursty writes; the forwarder's own TCP / Unix / unicast-UDP transports on real sockets (face MTU lowered in half of the cases: a send limit must not filter what arrives); a peer that stops reading for 1.3-1.8 s (TCP and Unix); distinct = (chunk plan, length-form set)",
 		Assumptions: []string{"each delivered frame is copied inside the callback (the code documents that the buffer is reused)", "kernel chunking on the Unix socket is not controllable; the exact-partition claim rests on the scripted reader"},
 		Batches:     func(t bool) int { return 16 },
 		ChildTimeoutS: func(t bool) int {
@@ -753,4 +759,100 @@ func init() {
 		MinDistinct: 6,
 		Floors:      map[string]int64{"blocks": 1000, "socket_blocks": 100},
 	})
+}
+
+// c11UDP: the forwarder's unicast UDP transport runs its own receive loop on a connected socket;
+// every datagram carries one to three whole blocks. Half of the cases lower the face MTU first (a
+// send limit: it must not filter what arrives). Datagrams are paced by what the sink has seen, so
+// that the kernel's socket buffer never overflows.
+func c11UDP(c *h.Ctx, id string, r *rand.Rand) {
+	peer, err := net.ListenUDP("udp4", &net.UDPAddr{IP: net.ParseIP("127.0.0.1")})
+	if err != nil {
+		c.Inconclusive("cannot open the peer's UDP socket: " + err.Error())
+		return
+	}
+	defer peer.Close()
+	probe, err := net.ListenUDP("udp4", &net.UDPAddr{IP: net.ParseIP("127.0.0.1")})
+	if err != nil {
+		c.Inconclusive("cannot find a free UDP port: " + err.Error())
+		return
+	}
+	lport := probe.LocalAddr().(*net.UDPAddr).Port
+	probe.Close()
+	pport := peer.LocalAddr().(*net.UDPAddr).Port
+	lowMTU := r.Intn(2) == 0
+	var sink *face.VerifFrameSink
+	var closeTr func()
+	done := make(chan struct{})
+	var setupErr error
+	if pi := h.Guard(func() {
+		tr, e := face.MakeUnicastUDPTransport(defn.MakeUDPFaceURI(4, "127.0.0.1", uint16(pport)), defn.MakeUDPFaceURI(4, "127.0.0.1", uint16(lport)), face.PersistencyPersistent)
+		if e != nil {
+			setupErr = e
+			return
+		}
+		sink = face.NewVerifFrameSink(tr)
+		if lowMTU {
+			tr.SetMTU([]int{1500, 300, 64}[r.Intn(3)])
+		}
+		closeTr = tr.Close
+		go func() { face.VerifRunReceive(tr); close(done) }()
+	}); pi != nil {
+		c.Violation("C11:panic:transport-setup:"+pi.Frame+":"+pi.Class, id, "transport construction panicked: "+pi.Value, nil)
+		return
+	}
+	if setupErr != nil || sink == nil {
+		c.Inconclusive(fmt.Sprintf("cannot build udp transport: %v", setupErr))
+		return
+	}
+	dst := &net.UDPAddr{IP: net.ParseIP("127.0.0.1"), Port: lport}
+	var blocks [][]byte
+	nDgram := 150 + r.Intn(150)
+	for d := 0; d < nDgram; d++ {
+		var dg []byte
+		for k := 1 + r.Intn(3); k > 0; k-- {
+			b := c11Block(r, true)
+			if len(dg)+len(b) > 30000 {
+				break
+			}
+			blocks = append(blocks, b)
+			dg = append(dg, b...)
+		}
+		if len(dg) == 0 {
+			continue
+		}
+		if _, err := peer.WriteToUDP(dg, dst); err != nil {
+			c.Inconclusive("cannot send a datagram: " + err.Error())
+			closeTr()
+			return
+		}
+		// pace: wait until the transport has taken this datagram off the socket (every block handed
+		// over or, if the implementation drops some, at least no growth for a while)
+		last, lastChange := -1, time.Now()
+		for {
+			n := len(sink.Frames())
+			if n >= len(blocks) {
+				break
+			}
+			if n != last {
+				last, lastChange = n, time.Now()
+			}
+			if time.Since(lastChange) > 300*time.Millisecond {
+				break
+			}
+			time.Sleep(50 * time.Microsecond)
+		}
+	}
+	closeTr()
+	select {
+	case <-done:
+	case <-time.After(30 * time.Second):
+		c.Inconclusive("udp receive loop did not end in 30 s")
+		return
+	}
+	c.Eval(1)
+	det := map[string]any{"plan": "udp-transport", "mtu_lowered": lowMTU, "blocks": len(blocks), "datagrams": nDgram}
+	c11Compare(c, id, "udp transport", blocks, sink.Frames(), det)
+	c.Count("transport_blocks", int64(len(blocks)))
+	c.Distinct(fmt.Sprintf("transport|udp|mtu-lowered=%v", lowMTU))
 }
